@@ -112,8 +112,11 @@ impl Calls {
                 let single = if arguments.len() == 1 { arguments.iter().next() } else { None };
                 let mut has_comment = tok_has_comment(o) || tok_has_comment(c);
                 if let Some(e) = single {
-                    // a comment anywhere around the single argument: not judged
-                    if e.to_string().contains("--") {
+                    // a comment between the parentheses and the single argument (in front of its first or behind its last
+                    // token): not judged. A comment INSIDE a table argument has nothing to do with the call parentheses.
+                    let (lead, trail) = e.surrounding_trivia();
+                    let is_comment = |x: &&full_moon::tokenizer::Token| matches!(x.token_kind(), full_moon::tokenizer::TokenKind::SingleLineComment | full_moon::tokenizer::TokenKind::MultiLineComment);
+                    if lead.iter().any(|x| is_comment(x)) || trail.iter().any(|x| is_comment(x)) {
                         has_comment = true;
                     }
                 }
@@ -277,6 +280,33 @@ fn c10_oracle(t: &TaskCtx, out: &str, oi: &Info, st: &mut Stats, f: &mut Vec<(St
         if matches!(c, crate::lex::Comment::Block { .. }) {
             for x in in_comment[(*a + 1).min(*e)..*e].iter_mut() {
                 *x = true;
+            }
+        }
+    }
+    // ignored nodes (and the directive comments) are copied verbatim: their bytes, located in order in the output, are exempt.
+    // If one cannot be located the case is C08's business, not this oracle's.
+    if !t.case.meta.ignored.is_empty() {
+        let mut from = 0;
+        for (a, e) in &t.case.meta.ignored {
+            let needle = &t.case.text[*a..*e];
+            match out[from..].find(needle) {
+                Some(k) => {
+                    // the whole lines the node occupies (its own indentation and line terminator are the input's)
+                    let mut s0 = out[..from + k].rfind('\n').map(|x| x + 1).unwrap_or(0);
+                    // the directive comment in front of the node is leading trivia of the ignored node: verbatim as well
+                    if s0 > 0 {
+                        let p0 = out[..s0 - 1].rfind('\n').map(|x| x + 1).unwrap_or(0);
+                        if out[p0..s0].contains("stylua: ignore") {
+                            s0 = p0;
+                        }
+                    }
+                    let e0 = out[from + k + needle.len()..].find('\n').map(|x| from + k + needle.len() + x + 1).unwrap_or(out.len());
+                    for x in in_str[s0..e0].iter_mut() {
+                        *x = true;
+                    }
+                    from += k + needle.len();
+                }
+                None => return,
             }
         }
     }
@@ -589,8 +619,15 @@ fn c09_oracle(t: &TaskCtx, out: &str, oi: &Info, st: &mut Stats, f: &mut Vec<(St
     let (Some(wast), Some(oast)) = (&wi.ast, &oi.ast) else { return };
     let ws = stmt_spans(wast);
     let os = stmt_spans(oast);
-    if ws.len() != spans.len() || os.len() != spans.len() || (0..spans.len()).any(|i| ws[i].3 != spans[i].3 || os[i].3 != spans[i].3) {
-        return; // statement structure changed: C02's business
+    let same_shape = |x: &Vec<(usize, usize, usize, usize)>| x.len() == spans.len() && (0..spans.len()).all(|i| x[i].3 == spans[i].3);
+    if !same_shape(&ws) {
+        return; // the whole-file run itself changes the statement structure: C02's business
+    }
+    if !same_shape(&os) {
+        // the whole-file run keeps the statements apart, the range run merges / splits some: a statement inside the range
+        // did not come out as in the whole-file run (typically a `;` that the neighbour outside the range still needs)
+        f.push(("inside-range-differs".into(), format!("the range run changes the statement structure ({} statements instead of {}), the whole-file run does not", os.len(), spans.len())));
+        return;
     }
     *st.oracle_evals.entry("range-inside-as-whole-file").or_insert(0) += 1;
     // start of the line if only blanks precede the statement on it, else the statement's own start
@@ -732,7 +769,7 @@ pub fn plans_for(prop: &str, thorough: bool) -> Vec<Plan> {
             });
             plans.push(Plan {
                 name: "F-TRIVIA(1) on F-STMT x call_parentheses x collapse x all widths",
-                cases: trivia_family(&stmt, if thorough { &[0, 1, 2, 3, 4, 5, 6] } else { &[0, 1, 5] }),
+                cases: trivia_family(&stmt, if thorough { &[0, 1, 2, 3, 4, 5, 6, 7] } else { &[0, 1, 5] }),
                 cfgs: cross(false, call_collapse),
                 widths: Widths::All,
                 ranges: Ranges::None,
@@ -946,7 +983,7 @@ pub fn plans_for(prop: &str, thorough: bool) -> Vec<Plan> {
         }
         "C07x" => {}
         "C03" => {
-            let kinds: &[usize] = if thorough { &[0, 1, 2, 3, 4, 5, 6] } else { &[0, 1, 3, 5] };
+            let kinds: &[usize] = if thorough { &[0, 1, 2, 3, 4, 5, 6, 7] } else { &[0, 1, 3, 5] };
             plans.push(Plan {
                 name: "F-TRIVIA(1) on F-STMT x call_parentheses x collapse x all widths",
                 cases: trivia_family(&stmt, kinds),
@@ -1079,6 +1116,15 @@ pub fn plans_for(prop: &str, thorough: bool) -> Vec<Plan> {
                 u_cap: 400,
             });
             plans.push(Plan {
+                name: "edges: a formatted neighbour on the same line behind the `;` of an ignored statement; an ignored last statement alone in its block",
+                cases: gen::f_ign_edges(),
+                cfgs: cross(false, |b| vec![b, Cfg { cs: 3, ..b }]),
+                widths: Widths::All,
+                ranges: Ranges::None,
+                oracles: O_IGN,
+                u_cap: 400,
+            });
+            plans.push(Plan {
                 name: "require groups inside ignore regions that span several groups x sort_requires",
                 cases: gen::f_ign_requires(),
                 cfgs: cross(false, |b| vec![Cfg { sort: true, ..b }, b]),
@@ -1147,7 +1193,7 @@ pub fn plans_for(prop: &str, thorough: bool) -> Vec<Plan> {
         "C10" => {
             let mut bases: Vec<Case> = stmt.clone();
             bases.extend(stmt_long.clone());
-            let tri = trivia_family(&only_dials(stmt.clone(), &[Dial::Core]), if thorough { &[0, 1, 3, 5, 6] } else { &[0, 3, 5] });
+            let tri = trivia_family(&only_dials(stmt.clone(), &[Dial::Core]), if thorough { &[0, 1, 3, 5, 6, 7] } else { &[0, 3, 5, 7] });
             let mut ws: Vec<Case> = gen::f_ws_files();
             for b in bases.iter() {
                 ws.extend(gen::ws_variants(b, thorough));
@@ -1171,6 +1217,15 @@ pub fn plans_for(prop: &str, thorough: bool) -> Vec<Plan> {
                 cases: { let mut c = bases.clone(); c.extend(tri.clone()); c },
                 cfgs: cross(false, opts.clone()),
                 widths: Widths::All,
+                ranges: Ranges::None,
+                oracles: O_WS,
+                u_cap: 400,
+            });
+            plans.push(Plan {
+                name: "ignore regions in CRLF / oddly indented files: what follows `ignore end` is formatted text again (the ignored lines are exempt)",
+                cases: gen::f_ign_after_region(),
+                cfgs: cross(false, opts.clone()),
+                widths: Widths::Classes,
                 ranges: Ranges::None,
                 oracles: O_WS,
                 u_cap: 400,
